@@ -40,6 +40,10 @@ pub enum Terminal {
     /// after a burst of records, two threads call shutdown() on two clones of the handle at the
     /// same time; the observation follows the FIRST of the two calls that returns
     ShutdownTwice,
+    /// the last two clones of the handle are dropped by two threads at the same time; the
+    /// observation follows when both drops have returned (file output; the scenario is repeated
+    /// with fresh loggers, because only few schedules let the two drops overlap)
+    DropLastTwo,
 }
 
 #[derive(Clone, Debug, Serialize, Deserialize)]
@@ -53,6 +57,10 @@ pub struct Case {
     /// the first thread's records are looked for in the files at once
     #[serde(default)]
     pub concurrent: bool,
+    /// (file output, harness built with its feature `watcher`) the logger is built with a
+    /// specification file, i.e. flexi_logger's watcher thread holds a reference to the writers
+    #[serde(default)]
+    pub specfile: bool,
 }
 
 pub struct P;
@@ -193,6 +201,22 @@ fn drive_x(case: &Case, log: Box<dyn log::Log>, handle: flexi_logger::LoggerHand
             std::mem::forget(handle);
             std::mem::forget(log);
         }
+        Terminal::DropLastTwo => {
+            let h2 = handle.clone();
+            let (tx, rx) = std::sync::mpsc::channel::<()>();
+            let go = std::sync::Arc::new(std::sync::Barrier::new(2));
+            for hd in [handle, h2] {
+                let (tx, go) = (tx.clone(), go.clone());
+                std::thread::spawn(move || {
+                    go.wait();
+                    drop(hd);
+                    let _ = tx.send(());
+                });
+            }
+            let _ = rx.recv();
+            let _ = rx.recv();
+            std::mem::forget(log);
+        }
         Terminal::ShutdownTwice => {
             // a backlog for the writer thread / the buffer
             for _ in 0..burst(case) {
@@ -273,11 +297,12 @@ impl Property for P {
             prop_oneof![6 => Just(Out::File), 3 => Just(Out::Writer), 1 => Just(Out::Stdout), 1 => Just(Out::Stderr)],
             mode,
             prop::option::weighted(0.5, (prop_oneof![Just(30u64), Just(200u64), 10u64..400], naming_strat())),
-            prop_oneof![3 => Just(Terminal::Shutdown), 3 => Just(Terminal::DropLastHandle), 2 => Just(Terminal::Flush), 1 => Just(Terminal::ShutdownTwice)],
+            prop_oneof![3 => Just(Terminal::Shutdown), 3 => Just(Terminal::DropLastHandle), 2 => Just(Terminal::Flush), 1 => Just(Terminal::ShutdownTwice), 1 => Just(Terminal::DropLastTwo)],
             suffix_strat(),
             prop::bool::weighted(0.3),
+            if cfg!(feature = "watcher") { prop::bool::weighted(0.04).boxed() } else { Just(false).boxed() },
         )
-            .prop_flat_map(|(out, mode, rot, terminal, suffix, concurrent)| {
+            .prop_flat_map(|(out, mode, rot, terminal, suffix, concurrent, specfile)| {
                 let cap = mode.buffer_cap().filter(|c| *c < 4096).unwrap_or(40);
                 let len = prop_oneof![8usize..30, Just(cap.saturating_sub(2).max(8)), Just(cap.max(8)), Just(cap + 1), Just(3 * cap + 7)];
                 let op = prop_oneof![
@@ -287,9 +312,9 @@ impl Property for P {
                     2 => Just(LOp::CloneDrop),
                     1 => prop_oneof![Just(1u64), Just(3u64)].prop_map(LOp::Sleep),
                 ];
-                (Just((out, mode, rot, terminal, suffix, concurrent)), prop::collection::vec(op, 1..25))
+                (Just((out, mode, rot, terminal, suffix, concurrent, specfile)), prop::collection::vec(op, 1..25))
             })
-            .prop_map(|((out, mode, rot, terminal, suffix, concurrent), ops)| {
+            .prop_map(|((out, mode, rot, terminal, suffix, concurrent, specfile), ops)| {
                 let mode = if matches!(out, Out::Stdout | Out::Stderr) {
                     match mode {
                         Mode::BufAndFlush(c, _) => Mode::BufDontFlush(c),
@@ -300,9 +325,11 @@ impl Property for P {
                     mode
                 };
                 let terminal = if mode.is_async() && terminal == Terminal::Flush { Terminal::Shutdown } else { terminal };
+                let terminal = if terminal == Terminal::DropLastTwo && (out != Out::File || rot.is_some()) { Terminal::DropLastHandle } else { terminal };
                 // without rotation: reading one file that only grows is an atomic enough observation while
                 // the second thread keeps logging (a snapshot of a rotating family is not)
-                let concurrent = concurrent && out == Out::File && !mode.is_async() && rot.is_none();
+                let concurrent = concurrent && out == Out::File && !mode.is_async() && rot.is_none() && terminal != Terminal::DropLastTwo;
+                let ops: Vec<LOp> = if terminal == Terminal::DropLastTwo { ops.into_iter().filter(|o| !matches!(o, LOp::Sleep(_))).take(6).collect() } else { ops };
                 let rot = rot.map(|(n, nam)| {
                     let nam = match nam {
                         Nam::Custom { current, fmt } if current.as_deref().is_none_or(str::is_empty) => Nam::Custom { current: Some("cur".into()), fmt },
@@ -310,6 +337,7 @@ impl Property for P {
                     };
                     Rot { crit: Crit::Size(n), nam, cln: Cln::Never }
                 });
+                let specfile = specfile && out == Out::File && terminal != Terminal::DropLastTwo;
                 Case {
                     tz: crate::vtime::tz_name(),
                     out,
@@ -317,6 +345,7 @@ impl Property for P {
                     ops,
                     terminal,
                     concurrent,
+                    specfile,
                 }
             })
             .boxed()
@@ -364,15 +393,29 @@ impl Property for P {
         match case.out {
             Out::File => {
                 out.class(if case.cfg.rot.is_some() { "out:file+rotation" } else { "out:file" });
-                let dir = sc.sub("logs");
+                let reps = if case.terminal == Terminal::DropLastTwo { 60 } else { 1 };
+                for rep in 0..reps {
+                if out.fail.is_some() {
+                    break;
+                }
+                let dir = sc.sub(&format!("logs{rep}"));
                 let mut l = base_logger(case).log_to_file(case.cfg.file_spec(&dir));
                 if let Some(r) = &case.cfg.rot {
                     l = l.rotate(r.crit.to_flexi(), r.nam.to_flexi(), r.cln.to_flexi());
                 }
-                let (log, handle) = match l.build() {
+                let built = if case.specfile { l.build_with_specfile(sc.sub(&format!("spec{rep}/logspec.toml"))) } else { l.build() };
+                let (log, handle) = match built {
                     Ok(x) => x,
+                    Err(e) if case.specfile && format!("{e:?}").contains("Too many open files") => {
+                        // inotify instances are a per-user resource (128): not this property's subject
+                        out.class("inotify-exhausted");
+                        return out;
+                    }
                     Err(e) => return Outcome::fail("build-failed", format!("{e:?}")),
                 };
+                if case.specfile {
+                    out.class("built-with-specfile");
+                }
                 let cfg = case.cfg.clone();
                 let dir2 = dir.clone();
                 let run = drive(case, log, handle, &mut |expected_so_far: &[String]| {
@@ -398,6 +441,8 @@ impl Property for P {
                     Err(e) => return Outcome::fail("family-illformed", e),
                 };
                 finish(&mut out, &run, stream_of(&fam));
+                let _ = std::fs::remove_dir_all(&dir);
+                }
             }
             Out::Writer => {
                 out.class("out:buffering-writer");
